@@ -49,9 +49,13 @@ THEOREMS = [
     "Scenic.PegTotal.terminates_of_le",
     "Scenic.PegTotal.parse_terminates",
     "Scenic.PegTotal.fuelBound_linear",
+    "Scenic.PegTotal.oracle_invariant",
+    "Scenic.PegTotal.actions_see_tokens",
+    "Scenic.PegTotal.parse_actions_see_tokens",
     # ... instantiated on the grammar regenerated from scenic.gram
     "Scenic.C10.scenic_grammar_terminates",
     "Scenic.C10.scenic_parse_never_hangs",
+    "Scenic.C10.scenic_loc_actions_see_tokens",
     # compiler state (Model/FrontState.lean), for every data set / script of nested compilations
     "Scenic.FrontState.deactivate_activate",
     "Scenic.FrontState.compile_restores_except_leaks",
@@ -61,15 +65,16 @@ THEOREMS = [
     "Scenic.FrontState.leak_witness",
     # ... instantiated on the data regenerated from veneer.py / translator.py
     "Scenic.C10.front_state_restored",
-    "Scenic.C10.front_state_restored_partial",
-    "Scenic.C10.unguarded_is_real",
-    "Scenic.C10.leak_is_real",
+    "Scenic.C10.front_inactive_afterwards",
+    "Scenic.C10.front_no_frame_left",
 ]
 SIDE = [
     "Scenic.C10.gen_grammar_wf",
     "Scenic.C10.gen_start_ok",
+    "Scenic.C10.gen_loc_safe",
     "Scenic.C10.gen_veneer_resets_cover_writes",
     "Scenic.C10.gen_skeleton_ok",
+    "Scenic.C10.gen_finally_guarded",
 ]
 
 FINGERPRINTS = {
@@ -384,7 +389,9 @@ def mutate_once(rng, src, seeds, V):
     """one byte/token/line level edit (delete, insert, replace, swap, re-indent, truncate, splice)"""
     if not src:
         return rng.choice(V)
-    k = rng.randrange(16)
+    k = rng.randrange(18)
+    if k >= 16:
+        return spread(src, rng, rng.choice([1, 2, 3, 99]))
     if k == 0:
         i = rng.randrange(len(src))
         return src[:i] + src[i + rng.choice([1, 1, 1, 2, 5]):]
@@ -475,6 +482,30 @@ def mutate_once(rng, src, seeds, V):
             cut = rng.randrange(len(L[i]) + 1)
             L[i:i + 1] = [L[i][:cut], L[i][cut:]]
     return "".join(T) if len(L) <= 1 else "\n".join(L)
+
+
+_OPEN, _CLOSE = "([{", ")]}"
+
+
+def spread(src, rng=None, count=99):
+    """put line breaks followed by a blank or comment-only line between tokens inside brackets (the tokenizer keeps no
+    text for such lines: error ranges that cross them need the lines the parser no longer holds)"""
+    T = toks(src)
+    depth, cand = 0, []
+    for i, t in enumerate(T):
+        if t in _OPEN:
+            depth += 1
+        elif t in _CLOSE:
+            depth = max(0, depth - 1)
+        elif depth > 0 and t.isspace() and "\n" not in t and 0 < i < len(T) - 1:
+            cand.append(i)
+    if not cand:
+        return src
+    if rng is not None and count < len(cand):
+        cand = rng.sample(cand, count)
+    for i in cand:
+        T[i] = (rng.choice(["\n\n", "\n# c\n", "\n\n\n  ", "\n  \n"]) if rng is not None else "\n\n")
+    return "".join(T)
 
 
 def make_mutant(seed, index, seeds, small, V):
@@ -645,14 +676,24 @@ def direct_oracle(ctx, parser_path):
             for key in verdict_keys(v):
                 report(key, f"probe {name}: {v}", {"kind": "text", "text": src, "origin": name, "exec": do_exec, "verdict": v})
 
+    for name, src in target_matrix():
+        v = boxed(TIMEBOX, front_compile, src) or {"o": "timeout", "stage": "?"}
+        ctx.case(("target", src))
+        ctx.hist("target_matrix_outcome", v["o"])
+        for key in verdict_keys(v):
+            report(key, f"expression in target position ({name}): {v}", {"kind": "text", "text": src, "origin": name, "verdict": v})
+    ctx.extra["target_matrix"] = {"programs": len(TARGET_EXPRS) * len(TARGET_CONTEXTS)}
+
     # ---- (2) grammar forms and examples quoted in docs/reference must be accepted, with the documented grouping
     found |= docs_oracle(ctx)
 
     # ---- (3) the unmutated corpus, then seeded mutants, 16 workers, until the count or the time budget is reached
     n = ctx.budget(5000, 300000)
     budget_s = ctx.budget(165, 1500)          # wall-clock target of the whole check (quick ≲ 3 min, thorough ≲ 30 min)
+    if os.environ.get("C10_TIME_BUDGET"):     # development runs on a loaded machine
+        budget_s = float(os.environ["C10_TIME_BUDGET"])
     exec_every = 4
-    nproc = min(16, os.cpu_count() or 4)
+    nproc = max(1, int(os.environ.get("VERIF_WORKERS") or min(16, os.cpu_count() or 4)))
     chunk = 25 if n <= 20000 else 200
     tasks = [("corpus", lo, min(len(seeds), lo + 40)) for lo in range(0, len(seeds), 40)]
     tasks += [("mut", lo, min(n, lo + chunk)) for lo in range(0, n, chunk)]
@@ -743,6 +784,15 @@ def fixed_probes():
         ("scenic-expression-as-walrus-target", "(x @ 3 := 1)\n", False),
         ("error-span-over-blank-line", "x = (1,\n\n  2 3)\n", False),
         ("error-span-over-comment-line", "x = (f(a,\n # c\n b c)\n", False),
+        ("error-range-two-operands-blank-line-between", "x = (a\n\n  b)\n", False),
+        ("error-range-list-comment-line-between", "x = [a\n# c\n b]\n", False),
+        ("error-range-genexp-argument", "f(a for a in b\n\n, c)\n", False),
+        ("error-range-ifexp-without-else", "x = (1 if\n\n 2)\n", False),
+        ("error-range-kwarg-assignment", "f(a.b\n\n = 1)\n", False),
+        ("error-range-missing-new", "x = (Object\n\n at 1)\n", False),
+        ("multiline-literal-as-assignment-target", '"""a\nb""" = 3\n', False),
+        ("multiline-literal-in-forgotten-comma", 'x = (1 """a\nb""")\n', False),
+        ("error-range-multiline-string", 'x = ("""a\nb""" """c\nd""" 3)\n', False),
         ("missing-new-with-specifier", "Object beyond position by distance\n", False),
         ("leading-zero-literal", "x = 05\n", False),
         ("annotation-in-behavior", "behavior B():\n    x: int = 3\n    wait\n", False),
@@ -767,6 +817,22 @@ def fixed_probes():
     return P
 
 
+TARGET_EXPRS = ["a < b", "a + b", "-a", "not a", "a and b", "f()", "f(x)[0]()", "lambda: 1", "a if b else c", "[a, b + 1]",
+                "(a, f())", "{1: 2}", "{1, 2}", "[x for x in y]", "{x for x in y}", "{x: 1 for x in y}", "(x for x in y)",
+                "1", "1.5", "'s'", "f's{a}'", "None", "True", "...", "*a", "*a, b()", "a.b()", "(yield)", "await a",
+                "(a := 1)", "a @ b", "a deg", "a relative to b", "a offset by b", "new Object", "new Object at 3",
+                "front of a", "visible a", "a can see b", "distance to a", "a at b", "(a until b)", "always a",
+                "a implies b", "ego", "workspace", "globalParameters", "a.b", "a[0]", "a[0:1]", "x"]
+TARGET_CONTEXTS = ["{e} = 1\n", "{e} += 1\n", "z = {e} = 1\n", "for {e} in z:\n    pass\n", "del {e}\n", "({e} := 1)\n",
+                   "with z as {e}:\n    pass\n", "{e}: int = 1\n", "[q for {e} in z]\n", "f({e}=1)\n",
+                   "behavior B():\n    {e} = 1\n", "import m as {e}\n", "def f({e}): pass\n"]
+
+
+def target_matrix():
+    """every expression form (Python and Scenic) in every assignment-target-like position"""
+    return [(f"target:{i}:{j}", c.format(e=e)) for i, e in enumerate(TARGET_EXPRS) for j, c in enumerate(TARGET_CONTEXTS)]
+
+
 def docs_oracle(ctx):
     from translate import docforms_c10 as D
     P, C, T, V, E = front_modules()
@@ -789,7 +855,7 @@ def docs_oracle(ctx):
         key = "docs-form-rejected:" + re.sub(r"[^a-z]+", "-", f["heading"].lower()).strip("-")[:60]
         if ctx.violation(key, f"{f['origin']}: the reference shows `{f['heading']}` but `{f['form']}` is rejected: "
                               f"{vs[0].get('msg', vs[0])}",
-                         {"kind": "text", "text": cands[0], "origin": f["origin"], "form": f["form"]}):
+                         {"kind": "docform", "candidates": cands, "origin": f["origin"], "form": f["form"]}):
             found = True
     for origin, src in D.literal_blocks(ctx.repo):
         v = front_compile(src)
@@ -858,6 +924,7 @@ def run(ctx):
         ctx.gen("PegGrammarC10", pegwf_c10.to_lean(gram))
         ctx.extra["grammar"] = pegwf_c10.stats(gram)
     except TemplateMismatch as e:
+        ctx.gen_restore("PegGrammarC10")
         ctx.escalated.append(f"translator tie lost (grammar): {e}")
         ctx.notes.append(f"translator tie lost for scenic.gram: {e}")
     fs = None
@@ -865,6 +932,7 @@ def run(ctx):
         fs = frontstate_c10.extract(ctx.repo)
         ctx.gen("FrontStateC10", frontstate_c10.to_lean(fs))
     except TemplateMismatch as e:
+        ctx.gen_restore("FrontStateC10")
         ctx.escalated.append(f"translator tie lost (veneer/translator skeleton): {e}")
         ctx.notes.append(f"translator tie lost for veneer.activate/deactivate or the try/finally skeletons: {e}")
     phases = ctx.extra.setdefault("phase_wall_s", {})
@@ -876,21 +944,29 @@ def run(ctx):
     load_front(parser_path)
     signal.signal(signal.SIGALRM, _alarm)
     found = False
-    if pr.build_ok:
-        found |= corr_frontstate(ctx, fs)
-        phases["corr_frontstate"] = round(ctx.elapsed(), 1)
-        if gram is not None:
-            found |= corr_peg(ctx, gram)
-        phases["corr_peg"] = round(ctx.elapsed(), 1)
-    found |= direct_oracle(ctx, parser_path)
+    driver_ok = pr.build_ok
+    if not driver_ok:
+        # a side condition / proof no longer checks: the model driver (no proofs inside) may still build
+        rc, _log = ctx.lake(["build", "drv_c10"])
+        driver_ok = rc == 0
+    only = set((os.environ.get("C10_PHASES") or "front,peg,direct").split(","))   # development switch
+    if "front" in only:
+        found |= corr_frontstate(ctx, fs, use_model=driver_ok)
+    phases["corr_frontstate"] = round(ctx.elapsed(), 1)
+    if driver_ok and gram is not None and "peg" in only:
+        found |= corr_peg(ctx, gram)
+    phases["corr_peg"] = round(ctx.elapsed(), 1)
+    if "direct" in only:
+        found |= direct_oracle(ctx, parser_path)
     phases["direct_oracle"] = round(ctx.elapsed(), 1)
     ctx.resolve_brokens(found)
 
 
 # =========================================================================== (C) state machine vs the real veneer
-def gen_script(rng, fs, corrupting):
-    """a random flat script (see Model/FrontState.lean); `corrupting`: may contain nested top-level calls whose
-    activation assertion fails (they corrupt the real veneer while the finally of _scenarioFromStream is unguarded)"""
+def gen_script(rng, fs, refused):
+    """a random flat script (see Model/FrontState.lean); `refused`: may contain nested top-level calls with parameter
+    overrides / 2D mode, whose activation assertion fails (the rest of an uncaught one is skipped, so only every other
+    script has them)"""
     writable = [fs["names"].index(n) for n in fs["compileWrites"]]
     toks, depth = [], 0
     for _ in range(rng.choice([1, 2, 3, 5, 8, 12])):
@@ -905,7 +981,7 @@ def gen_script(rng, fs, corrupting):
             toks.append("I")
             depth += 1
         elif k < 0.85 and depth < 3:
-            ov, m2 = (rng.random() < 0.5, rng.random() < 0.3) if corrupting else (False, False)
+            ov, m2 = (rng.random() < 0.5, rng.random() < 0.3) if refused else (False, False)
             toks.append(f"T{int(ov)}{int(m2)}{int(rng.random() < 0.6)}")
             depth += 1
         elif depth > 0:
@@ -1034,12 +1110,21 @@ def run_script_real(script, fs, tmp):
     return res
 
 
-def corr_frontstate(ctx, fs):
-    """Lean state machine vs the real veneer on scripts of nested compilations with injected failures"""
+def corr_frontstate(ctx, fs, use_model=True):
+    """Lean state machine vs the real veneer on scripts of nested compilations with injected failures; every script is
+    also a direct test of the property (the veneer must be back in its initial state).  `use_model=False` (the Lean
+    driver could not be built): only the direct test.  `fs=None` (the translator lost its template): the names of the
+    tracked globals and the compile-time writers come from the data the Lean driver was built with."""
     found = False
-    if fs is None:
-        return False
     rng = ctx.rng
+    if fs is None:
+        fs = {"names": sorted(VENEER_SCALARS[1:] + VENEER_CONTAINERS[1:] + ["constructibles"]),
+              "compileWrites": ["_globalParameters", "inInitialScenario", "scenarios", "simulatorFactory"],
+              "sfsGuarded": None, "sfsInnerActivates": False, "fallback": True}
+        if use_model:
+            kv = dict(x.split("=", 1) for x in ctx.driver(["C10 frontdata"])[0].split())
+            fs["names"] = kv["names"].split(",")
+            fs["compileWrites"] = [fs["names"][int(i)] for i in kv["writes"].split(",") if i != "-"]
     guarded = fs["sfsGuarded"]
     scripts = [
         {"o": (0, 0), "toks": []},
@@ -1047,12 +1132,16 @@ def corr_frontstate(ctx, fs):
         {"o": (0, 0), "toks": ["I", "T001", "p", "f", "c", "p", "c", "p"]},
         {"o": (0, 0), "toks": ["T100", "c"]},          # the witness script of FrontState.unguarded_witness
         {"o": (0, 0), "toks": ["T101", "c", "p"]},
-        {"o": (0, 1), "toks": ["T010", "p", "c", "p"]},
         {"o": (0, 0), "toks": ["T010", "p", "c", "p"]},
-    ] + [{"o": (0, 0), "toks": [f"w{fs['names'].index(n)}"]} for n in fs["compileWrites"]]
+        {"o": (0, 1), "toks": ["T010", "p", "c", "p"]},
+        {"o": (0, 1), "toks": ["I", "p", "T111", "p", "c", "p", "c", "p"]},
+        {"o": (1, 0), "toks": ["I", "I", "T001", "I", "f"]},
+    ] + [{"o": (0, 0), "toks": [f"w{fs['names'].index(n)}"]} for n in fs["compileWrites"] if n in fs["names"]] \
+      + [{"o": (0, 0), "toks": ["I", f"w{fs['names'].index(n)}", "c", "T001", f"w{fs['names'].index(n)}", "f"]}
+         for n in fs["compileWrites"] if n in fs["names"]]
     n = ctx.budget(60, 1500)
     for i in range(n):
-        scripts.append(gen_script(rng, fs, corrupting=(i % 4 == 0)))
+        scripts.append(gen_script(rng, fs, refused=(i % 2 == 0)))
     if fs.get("sfsInnerActivates"):
         # compileStream is called in its activating form inside _scenarioFromStream: every top frame is doubled
         for sc in scripts:
@@ -1072,26 +1161,27 @@ def corr_frontstate(ctx, fs):
                     out.append(t)
             sc["model_toks"] = ["I"] + out
     lines = [f"C10 front - o{sc['o'][0]}{sc['o'][1]} " + " ".join(sc.get("model_toks", sc["toks"])) for sc in scripts]
-    lean = ctx.driver(lines)
+    lean = ctx.driver(lines) if use_model else [None] * len(lines)
     focus = [n for n in fs["compileWrites"]]
     bad = 0
     for sc, ln, out in zip(scripts, lines, lean):
         real = run_script_real(sc, fs, ctx.tmp)
         ctx.case(("script", sc["o"], tuple(sc["toks"])), nontrivial=len(sc["toks"]) > 0)
-        m = dict(kv.split("=", 1) for kv in out.split())
-        mdirty = set() if m["dirty"] == "-" else {fs["names"][int(x)] for x in m["dirty"].split(",")}
-        mtrace = [] if m["trace"] == "-" else [[int(a) for a in x.split(":")] for x in m["trace"].split(";")]
-        agree = (int(m["act"]) == real["act"] and int(m["stack"]) == real["stack"] and int(m["m2"]) == real["m2"]
-                 and mtrace == real["trace"] and set(real["dirty"]) <= mdirty
-                 and {g for g in real["dirty"] if g in focus} == {g for g in mdirty if g in focus})
+        if out is not None:
+            m = dict(kv.split("=", 1) for kv in out.split())
+            mdirty = set() if m["dirty"] == "-" else {fs["names"][int(x)] for x in m["dirty"].split(",")}
+            mtrace = [] if m["trace"] == "-" else [[int(a) for a in x.split(":")] for x in m["trace"].split(";")]
+            agree = (int(m["act"]) == real["act"] and int(m["stack"]) == real["stack"] and int(m["m2"]) == real["m2"]
+                     and mtrace == real["trace"] and set(real["dirty"]) <= mdirty
+                     and {g for g in real["dirty"] if g in focus} == {g for g in mdirty if g in focus})
+            if not agree:
+                bad += 1
+                if bad <= 3:
+                    ctx.broken("correspondence", "FrontState machine vs veneer/translator",
+                               f"{ln}: lean={out} real={ {k: v for k, v in real.items() if k != 'text'} }")
         ctx.hist("script_final_activity", real["act"])
         ctx.hist("script_outcome", "raised" if real["raised"] else "returned")
         ctx.hist("script_len", min(len(sc["toks"]), 12))
-        if not agree:
-            bad += 1
-            if bad <= 3:
-                ctx.broken("correspondence", "FrontState machine vs veneer/translator",
-                           f"{ln}: lean={out} real={ {k: v for k, v in real.items() if k != 'text'} }")
         # the property itself on this run: inactive afterwards, every global at its initial value
         diff = list(real["dirty"])
         if real["act"] != 0:
@@ -1100,20 +1190,16 @@ def corr_frontstate(ctx, fs):
             diff.append("scenarioStack")
         if real["raised"] == "timeout":
             continue
-        nested_fail = any(t[0] == "T" and (t[1] == "1" or t[2] == "1") for t in sc["toks"])
         for g in sorted(set(diff)):
-            suffix = ""
-            if nested_fail and (real["act"] != 0 or real["stack"] != 0):
-                # everything that differs after the activation counter was corrupted by a refused nested top-level call
-                g, suffix = "activity", ":nested-top-level-call"
-            if ctx.violation("state:" + g + suffix, f"after scenarioFromString on a nested-compilation script {sc['toks']} "
-                                            f"(options {sc['o']}) the veneer is not in its initial state: "
-                                            f"activity={real['act']}, len(scenarioStack)={real['stack']}, "
-                                            f"changed globals {real['dirty']}",
-                             {"kind": "script", "script": sc, "program": real["text"]}):
+            if ctx.violation("state:" + g, f"after scenarioFromString on a nested-compilation script {sc['toks']} "
+                                           f"(options {sc['o']}) the veneer is not in its initial state: "
+                                           f"activity={real['act']}, len(scenarioStack)={real['stack']}, "
+                                           f"changed globals {real['dirty']}",
+                             {"kind": "script", "script": sc, "names": fs["names"], "program": real["text"]}):
                 found = True
     ctx.extra["frontstate"] = {"scripts": len(scripts), "disagreements": bad, "guarded_finally": guarded,
-                               "leaks": frontstate_leaks(fs)}
+                               "compared_with_model": bool(use_model),
+                               "leaks": None if fs.get("fallback") else frontstate_leaks(fs)}
     return found
 
 
@@ -1271,43 +1357,74 @@ def corr_peg(ctx, gram):
 
 
 def replay(ctx, path):
+    """re-execute the recorded input on the real code of $SCENIC_REPO; exit status 1 = the violation is reproduced,
+    0 = the input passes on this tree"""
     body = json.load(open(path))
     rep = body.get("replay", body)
+    key = body.get("key", "")
     kind = rep.get("kind")
+
+    def done(reproduced):
+        print("REPRODUCED: " + key if reproduced else "not reproduced: the recorded input passes on this tree")
+        return 1 if reproduced else 0
+
     if kind == "pegen":
         p, err = regenerate_parser(ctx)
         print("parser generation:", "ok" if p else err)
-        return 0
+        return done(p is None)
     if "broken" in rep:
         print(json.dumps(rep, indent=1)[:4000])
+        print("(no concrete input was recorded: re-run ./check C10 to see whether the obligation still fails)")
         return 0
     parser_path, err = regenerate_parser(ctx)
     if parser_path is None:
         print("cannot generate parser:", err)
-        return 1
+        return 2
     load_front(parser_path)
     signal.signal(signal.SIGALRM, _alarm)
     veneer_reset()
     initial = veneer_state()
     P, C, T, V, E = front_modules()
     if kind == "precedence":
+        dumps = []
         for s in (rep["a"], rep["b"]):
             try:
-                print(repr(s), "->", ast.dump(C.compileScenicAST(P.parse_string(s, "exec"))[0])[:400])
+                dumps.append(ast.dump(C.compileScenicAST(P.parse_string(s, "exec"))[0]))
+                print(repr(s), "->", dumps[-1][:400])
             except Exception as e:  # noqa
-                print(repr(s), "-> raised", type(e).__name__, e)
-        return 0
+                dumps.append(f"raised {type(e).__name__}: {e}")
+                print(repr(s), "->", dumps[-1])
+        return done(dumps[0] != dumps[1] or dumps[0].startswith("raised"))
     if kind == "script":
         from translate import frontstate_c10
-        fs = frontstate_c10.extract(ctx.repo)
+        try:
+            fs = frontstate_c10.extract(ctx.repo)
+        except TemplateMismatch:
+            fs = {"names": rep.get("names", [])}
+        if rep.get("names"):
+            fs = dict(fs, names=rep["names"])
         r = run_script_real(rep["script"], fs, ctx.tmp)
         print("program:\n" + r.pop("text"))
         print(json.dumps(r, indent=1))
-        return 0
+        return done(bool(r["dirty"]) or r["act"] != 0 or r["stack"] != 0 or r["m2"] != 0)
+    if kind == "docform":
+        from translate import docforms_c10 as D
+        if rep.get("form") not in [f.get("form") for f in D.doc_forms(ctx.repo)]:
+            print("the reference of this tree does not show the form", repr(rep.get("form")))
+            return done(False)
+        vs = [front_compile(c) for c in rep["candidates"]]
+        for c, v in zip(rep["candidates"], vs):
+            print("candidate:", repr(c[-120:]), "->", json.dumps(v, default=str))
+        return done(not any(v["o"] == "ok" for v in vs))
+    if kind == "errloc":
+        out = errloc_replay(rep)
+        return done(out)
     text = rep["text"]
     print("input text:", repr(text))
     vs = run_one(text, bool(rep.get("exec")), initial, mode2D=bool(rep.get("mode2D")), timebox=TIMEBOX_SOLO)
+    keys = []
     for v in vs:
+        keys += verdict_keys(v)
         print("verdict:", json.dumps(v, default=str), "keys:", verdict_keys(v))
     try:
         tree = P.parse_string(text, "exec", filename="<string>")
@@ -1316,4 +1433,11 @@ def replay(ctx, path):
         print("front end: ok")
     except BaseException:  # noqa
         traceback.print_exc(limit=-6)
-    return 0
+    if key.startswith("docs-example-rejected"):
+        v = vs[0]
+        if v["o"] != "ok":
+            v = front_compile("behavior B():\n" + textwrap.indent(text, "    "))
+        return done(v["o"] != "ok")
+    if key.startswith("hang:"):
+        return done(vs[0]["o"] == "timeout")
+    return done(key in keys if key else bool(keys))
